@@ -15,6 +15,10 @@
 // Allocation-failure histories (fexh / frandom): the pool's Arena is made to fail through hook H1
 // (asmjit_verif_arena_fail_fn) only while a ConstPool::add() of the history is running. A refused add() may have
 // registered nothing or a part; everything the pool hands out afterwards is held to the same statement as before.
+// Two more places where requests are refused: inside embed_const_pool() of the emitter that writes such a pool out (the pool
+// is then embedded again under a new label) and, in the Compiler cases of --mode emit, anywhere inside
+// BaseCompiler::_new_const() (creation of the scope's pool node, registration of its label, add()). A refused call owes
+// nothing by itself; what is handed out / written out after it is checked as always.
 #include <asmjit/core.h>
 #include <asmjit/x86.h>
 #include <asmjit/a64.h>
@@ -23,6 +27,8 @@
 #include <memory>
 #include <unordered_map>
 #include <unordered_set>
+#include <sys/wait.h>
+#include <unistd.h>
 
 #if defined(__SANITIZE_ADDRESS__)
 #include <sanitizer/asan_interface.h>
@@ -105,11 +111,15 @@ struct Stats {
   uint64_t refused_by_index[41] = {0};
   std::map<std::string, uint64_t> refused_by_pos;
   std::map<std::string, uint64_t> fault_embed_paths;
+  // dimensions added later (summed by name in c19.py): faults outside add() (pool creation inside _new_const, inside
+  // embed_const_pool), typed front-end wrappers, invalid scopes, accessor checks, large / second-section / 32-bit emitters
+  std::map<std::string, uint64_t> extra;
   std::unordered_set<uint64_t> distinct_nontrivial;
   std::vector<std::string> samples;
 };
 static Stats g_stats;
 static bool g_keep_hashes = true;
+static inline void xhit(const std::string& k, uint64_t n = 1) { g_stats.extra[k] += n; }
 
 // ---------------------------------------------------------------------------------------------------------
 // Fault control (hook H1). Requests are counted / failed only while an add() of a history is in progress, so the
@@ -125,6 +135,7 @@ struct FaultCtl {
   uint64_t fired = 0;        // failures injected in this add()
   uint64_t fired_index = 0;  // ordinal of the first failed request
   const char* fired_pos = "";
+  const char* outer = nullptr;   // non-null: the monitored call is not add() but _new_const() / embed_const_pool() (all requests count)
   size_t gap_req = 0, node_req[7] = {0};
   bool gap_distinct = true;
   void init() {
@@ -134,8 +145,8 @@ struct FaultCtl {
       if (node_req[i] == gap_req) gap_distinct = false;
     }
   }
-  void begin(uint64_t k_, bool sticky_) { in_add = true; k = k_; sticky = sticky_; requests = nodes = fired = fired_index = 0; fired_pos = ""; }
-  void end() { in_add = false; k = 0; }
+  void begin(uint64_t k_, bool sticky_, const char* outer_ = nullptr) { in_add = true; k = k_; sticky = sticky_; requests = nodes = fired = fired_index = 0; fired_pos = ""; outer = outer_; }
+  void end() { in_add = false; k = 0; outer = nullptr; }
 };
 static FaultCtl F;
 
@@ -148,7 +159,8 @@ static bool fail_hook(size_t size) {
   if (hit) {
     if (!F.fired) {
       F.fired_index = F.requests;
-      if (!F.gap_distinct) F.fired_pos = "gap-or-node";
+      if (F.outer) F.fired_pos = F.outer;
+      else if (!F.gap_distinct) F.fired_pos = "gap-or-node";
       else if (is_gap) F.fired_pos = "gap-record";
       else if (F.nodes == 1) F.fired_pos = "own-node";
       else if (size == F.node_req[5]) F.fired_pos = "shared-32-byte-node";
@@ -368,6 +380,13 @@ struct Session {
       fail(std::string("alignment-not-covering:") + sz, "alignment() = " + std::to_string(pool->alignment()) + " after adding a constant of " + sz);
       return;
     }
+    // a pool that has just handed out an offset reports a size that covers it (checked above) and is not "empty"
+    if (pool->is_empty()) {
+      log(it, int64_t(off), 'A');
+      fail("is-empty-after-successful-add", "is_empty() is true after add() handed out offset " + std::to_string(off) + " (size() = " + std::to_string(psize) + ")");
+      return;
+    }
+    g_stats.extra["is_empty_checked_after_successful_add"]++;
 
     std::string k = it.key();
     auto f = seen.find(k);
@@ -964,24 +983,245 @@ static void check_section(Session& s, CodeHolder& code, uint32_t label_id, size_
 
 struct LoadRec { size_t out_pos; size_t size; uint8_t b[64]; };
 
+// ---- typed front-end wrappers (x86::Compiler / a64::Compiler: new_const, new_byte_const ... new_double_const) -------------
+
+template<class T> static T val_of(const Item& it) { T v; memcpy(&v, it.bytes.data(), sizeof(T)); return v; }
+
+// the sized wrappers have different names (and different widths per name) on the two architectures
+static x86::Mem wrap_sized(x86::Compiler& cc, ConstPoolScope sc, const Item& it, const char*& name) {
+  switch (it.size) {
+    case 1: name = "x86:new_byte_const"; return cc.new_byte_const(sc, val_of<uint8_t>(it));
+    case 2: name = "x86:new_word_const"; return cc.new_word_const(sc, val_of<uint16_t>(it));
+    case 4: name = "x86:new_dword_const"; return cc.new_dword_const(sc, val_of<uint32_t>(it));
+    default: name = "x86:new_qword_const"; return cc.new_qword_const(sc, val_of<uint64_t>(it));
+  }
+}
+static a64::Mem wrap_sized(a64::Compiler& cc, ConstPoolScope sc, const Item& it, const char*& name) {
+  switch (it.size) {
+    case 1: name = "a64:new_byte_const"; return cc.new_byte_const(sc, val_of<uint8_t>(it));
+    case 2: name = "a64:new_half_const"; return cc.new_half_const(sc, val_of<uint16_t>(it));
+    case 4: name = "a64:new_word_const"; return cc.new_word_const(sc, val_of<uint32_t>(it));
+    default: name = "a64:new_dword_const"; return cc.new_dword_const(sc, val_of<uint64_t>(it));
+  }
+}
+
+// variant 0: sized name; 1: signed; 2: unsigned; 3: float / double; 4: new_const(scope, data, size). Only for sizes 1, 2, 4, 8.
+template<class CC, class MemT>
+static MemT call_wrapper(CC& cc, const char* arch, ConstPoolScope sc, const Item& it, unsigned variant, const uint8_t* p, std::string& name) {
+  const char* nm = nullptr;
+  MemT m;
+  if (variant == 3 && it.size == 4) { float v = val_of<float>(it); if (v != v) variant = 2; }
+  if (variant == 3 && it.size == 8) { double v = val_of<double>(it); if (v != v) variant = 2; }
+  if (it.size == 1 && variant != 4) variant = 0;
+  if (it.size == 2 && variant == 3) variant = 1;
+  switch (variant) {
+    case 0: m = wrap_sized(cc, sc, it, nm); name = nm; return m;
+    case 1:
+      if (it.size == 2) { nm = "new_int16_const"; m = cc.new_int16_const(sc, val_of<int16_t>(it)); }
+      else if (it.size == 4) { nm = "new_int32_const"; m = cc.new_int32_const(sc, val_of<int32_t>(it)); }
+      else { nm = "new_int64_const"; m = cc.new_int64_const(sc, val_of<int64_t>(it)); }
+      break;
+    case 2:
+      if (it.size == 2) { nm = "new_uint16_const"; m = cc.new_uint16_const(sc, val_of<uint16_t>(it)); }
+      else if (it.size == 4) { nm = "new_uint32_const"; m = cc.new_uint32_const(sc, val_of<uint32_t>(it)); }
+      else { nm = "new_uint64_const"; m = cc.new_uint64_const(sc, val_of<uint64_t>(it)); }
+      break;
+    case 3:
+      if (it.size == 4) { nm = "new_float_const"; m = cc.new_float_const(sc, val_of<float>(it)); }
+      else { nm = "new_double_const"; m = cc.new_double_const(sc, val_of<double>(it)); }
+      break;
+    default:
+      nm = "new_const"; m = cc.new_const(sc, p, it.size);
+      break;
+  }
+  name = std::string(arch) + ":" + nm;
+  return m;
+}
+
+// ---- one Compiler case: constants requested through _new_const / the typed wrappers, optionally with arena requests
+// made to fail anywhere inside the call (creation of the pool node, registration of its label, add()) -----------------------
+
+template<class CC, class MemT>
+struct CcCase {
+  CC& cc;
+  CodeHolder& code;
+  const char* arch;                      // "x86" | "a64"
+  const char* ctx[2];                    // session contexts of the local / global pool
+  Rng fr;                                // side stream: faults, wrappers, invalid scopes (the main stream picks constants as before)
+  bool fault_case = false;
+  bool aborted = false;
+  std::vector<std::unique_ptr<EmitPool>> pools;
+  EmitPool* cur[2] = {nullptr, nullptr}; // [0] local pool of the open function, [1] global pool
+  bool creation_refused[2] = {false, false};
+  bool left_unregistered = false;        // a refused creation left a node whose label is not registered in the scope's slot
+
+  CcCase(CC& c, CodeHolder& h, const char* a, const char* cl, const char* cg, Rng side) : cc(c), code(h), arch(a), fr(side) { ctx[0] = cl; ctx[1] = cg; }
+
+  // the label a ConstPoolNode carries must be a label of the CodeHolder that the Builder maps back to that node:
+  // only then is it bound where the pool is written
+  bool registered(ConstPoolNode* node) const {
+    uint32_t id = node->label_id();
+    return code.is_label_valid(id) && id < cc._label_nodes.size() && cc._label_nodes[id] == node;
+  }
+
+  void pick(const Item& it, unsigned scope, uint64_t& fk, bool& sticky, unsigned& wrapper) {
+    fk = 0; sticky = false; wrapper = 0;
+    bool first = cc._const_pools[scope] == nullptr;
+    if (fault_case && (first ? fr.chance(2, 3) : fr.chance(1, 6))) {
+      fk = first && fr.chance(3, 4) ? fr.range(1, 4) : fr.range(1, 12);
+      sticky = fr.chance(1, 2);
+    }
+    else if (fr.chance(1, 8) && (it.size == 1 || it.size == 2 || it.size == 4 || it.size == 8) && it.bytes.size() == it.size)
+      wrapper = 1 + unsigned(fr.below(5));
+  }
+
+  // One constant requested from the Compiler. Returns true if it was handed out as `m` and agreed with the model.
+  bool op(const Item& it, unsigned scope, uint64_t fk, bool sticky, unsigned wrapper, bool odd, MemT& m) {
+    ConstPoolNode* before_node = cc._const_pools[scope];
+    Snap before = take_snap(before_node ? &before_node->const_pool() : nullptr, true);
+    const uint8_t* p = g_feed.put(it, odd);
+    Error err;
+    std::string wname;
+    F.begin(fk, sticky, "inside-_new_const");
+    if (wrapper) {
+      m = call_wrapper<CC, MemT>(cc, arch, ConstPoolScope(scope), it, wrapper - 1, p, wname);
+      err = m.has_base_label() ? Error::kOk : Error::kInvalidState;   // the wrappers return no error code: a reset operand ([0], no base) is the only signal
+    }
+    else err = cc._new_const(Out<BaseMem>(m), ConstPoolScope(scope), p, it.size);
+    F.end();
+    g_feed.scribble();
+    FaultObs fo{fk != 0, fk, sticky, F.fired, F.fired_index, F.requests, F.fired_pos};
+    std::string A = arch;
+    if (wrapper) { xhit("typed_wrapper_calls"); xhit("typed_wrapper:" + wname); }
+    if (fk) { xhit("newconst_faults_armed"); if (fo.fired) xhit("newconst_faults_reached"); }
+    ConstPoolNode* node = cc._const_pools[scope];
+    if (fo.fired && err != Error::kOk && !before_node) {
+      // the pool of this scope did not exist: the refused request may have been one of its creation. Nothing is required of
+      // the failed call itself; what the scope hands out from now on is checked as always.
+      if (!node) { creation_refused[scope] = true; xhit("newconst_refused:" + A + ":pool-creation,scope-left-without-pool"); return false; }
+      if (!registered(node)) { creation_refused[scope] = true; left_unregistered = true; xhit("newconst_refused:" + A + ":pool-creation,scope-keeps-a-node-whose-label-is-not-registered"); return false; }
+    }
+    if (!node) { aborted = true; return false; }
+    EmitPool*& ep = cur[scope];
+    if (!ep) {
+      pools.emplace_back(new EmitPool());
+      ep = pools.back().get();
+      ep->s.reset(new Session(ctx[scope]));
+      ep->node = node;
+      ep->label_id = node->label_id();
+    }
+    if (ep->node != node) { ep->s->fail("pool-node-changed", "the ConstPoolNode of an open scope changed between two new_const calls"); return false; }
+    if (ep->s->failed) return false;
+    size_t off = size_t(0xDEADBEEFDEADull);
+    if (err == Error::kOk) {
+      if (!m.is_mem() || !m.has_base_label() || m.base_id() != node->label_id() || m.has_index() || m.offset() < 0 || (arch[0] == 'x' && m.signature().size() != it.size)) {
+        ep->s->log(it, m.offset(), '?');
+        ep->s->fail("mem-operand-wrong", std::string(wrapper ? wname : std::string("new_const")) + " returned a memory operand that is not [pool_label + offset] of the constant's size (base_id=" +
+                    std::to_string(m.base_id()) + " label=" + std::to_string(node->label_id()) + " offset=" + std::to_string(m.offset()) + " size=" + std::to_string(m.signature().size()) +
+                    " constant size=" + std::to_string(it.size) + ")");
+        return false;
+      }
+      if (!registered(node)) {
+        ep->s->log(it, m.offset(), '?');
+        LabelNode* other = m.base_id() < cc._label_nodes.size() ? cc._label_nodes[m.base_id()] : nullptr;
+        // reported under one key for both Compilers and both scopes (the code is BaseCompiler's)
+        Session tmp("emit:compiler:");
+        tmp.hist = ep->s->hist;
+        tmp.n_adds = ep->s->n_adds;
+        ep->s->failed = true;
+        tmp.fail(std::string("operand-label-is-not-the-pools") + (creation_refused[scope] ? ":after-refused-pool-creation" : ""),
+                    std::string(arch) + "::Compiler, " + (scope ? "global" : "local") + " pool: new_const returned kOk and [label#" + std::to_string(m.base_id()) + " + " + std::to_string(m.offset()) + "], but label#" + std::to_string(m.base_id()) +
+                    " is not registered to the scope's ConstPoolNode (" + (other ? std::string("it belongs to a node of type ") + std::to_string(unsigned(other->type())) : std::string("no node")) +
+                    "; the pool node carries its constructor's default id): the pool is never bound at the label the operand refers to" +
+                    (creation_refused[scope] ? " [an earlier _new_const of this scope returned an error after an arena request made while the pool node was created/registered failed]" : ""));
+        return false;
+      }
+      off = size_t(m.offset());
+    }
+    if (fo.fired) ep->s->cur_fk = sticky ? -int32_t(fk) : int32_t(fk);
+    ep->s->record(it, err, off, before, &node->const_pool(), true, fk ? &fo : nullptr);
+    ep->s->cur_fk = 0;
+    if (fo.fired && valid_size(it.size)) xhit(err != Error::kOk ? "newconst_refused:" + A + ":inside-add" : "newconst_fault_not_reported:" + A);
+    if (ep->s->failed || err != Error::kOk) return false;
+    const ConstPool& cp = node->const_pool();
+    if (node->is_empty() != cp.is_empty() || node->size() != cp.size() || node->alignment() != cp.alignment()) {
+      ep->s->fail("pool-node-accessors-differ", "ConstPoolNode::is_empty/size/alignment = " + std::to_string(node->is_empty()) + "/" + std::to_string(node->size()) + "/" +
+                  std::to_string(node->alignment()) + " but its pool reports " + std::to_string(cp.is_empty()) + "/" + std::to_string(cp.size()) + "/" + std::to_string(cp.alignment()));
+      return false;
+    }
+    ep->s->verify_fill(cp, false);
+    if (creation_refused[scope] && !ep->s->failed) xhit("newconst_handed_out_after_refused_pool_creation");
+    return !ep->s->failed;
+  }
+
+  // constants refused inside add() and not handed out since (of the pool of `scope`)
+  std::vector<Item> pending_of(unsigned scope) const {
+    std::vector<Item> v;
+    if (cur[scope] && !cur[scope]->s->failed)
+      for (auto& kv : cur[scope]->s->pending) v.push_back(mk_item(kv.second.size, kv.second.b, kv.second.size));
+    std::sort(v.begin(), v.end(), [](const Item& a, const Item& b) { return a.key() < b.key(); });
+    return v;
+  }
+
+  // _new_const with a scope that does not exist: must be refused, hand out no operand and leave both pools alone
+  void invalid_scope_probe() {
+    static const uint32_t far[] = {2, 3, 255, 256, 65536, 0x7FFFFFFFu, 0x80000000u, 0xFFFFFFFEu, 0xFFFFFFFFu};
+    uint32_t v = fr.chance(1, 2) ? uint32_t(2 + fr.below(250)) : far[fr.below(sizeof(far) / sizeof(far[0]))];
+    ConstPoolNode* n0 = cc._const_pools[0];
+    ConstPoolNode* n1 = cc._const_pools[1];
+    Snap s0 = take_snap(n0 ? &n0->const_pool() : nullptr, true), s1 = take_snap(n1 ? &n1->const_pool() : nullptr, true);
+    static const size_t sizes[] = {1, 4, 8, 16, 64};
+    size_t size = sizes[fr.below(5)];
+    Item it = mk_invalid(size, uint8_t(0x31 + v));
+    const uint8_t* p = g_feed.put(it, false);
+    MemT m;   // BaseMem::reset() leaves [0]: a memory operand without base
+    bool typed = fr.chance(1, 2);
+    Error err = Error::kOk;
+    if (typed) m = cc.new_const(ConstPoolScope(v), p, size);
+    else err = cc._new_const(Out<BaseMem>(m), ConstPoolScope(v), p, size);
+    g_feed.scribble();
+    Session tmp(std::string("emit:") + (arch[0] == 'a' ? "a64-" : "") + "compiler:");
+    if (cur[0]) tmp.hist = cur[0]->s->hist;
+    std::string sv = "ConstPoolScope(" + std::to_string(v) + ")";
+    if (!typed && err == Error::kOk) { tmp.fail("invalid-scope-accepted", "_new_const(" + sv + ", size " + std::to_string(size) + ") returned kOk"); return; }
+    if (m.is_mem() && (m.has_base() || m.has_index())) { tmp.fail("invalid-scope-handed-out-an-operand", std::string(typed ? "new_const(" : "_new_const(") + sv + ") handed out a memory operand with a base (base_id=" + std::to_string(m.base_id()) + " offset=" + std::to_string(m.offset()) + ")"); return; }
+    Snap a0 = take_snap(cc._const_pools[0] ? &cc._const_pools[0]->const_pool() : nullptr, true), a1 = take_snap(cc._const_pools[1] ? &cc._const_pools[1]->const_pool() : nullptr, true);
+    if (cc._const_pools[0] != n0 || cc._const_pools[1] != n1 || a0.size != s0.size || a1.size != s1.size || a0.alignment != s0.alignment || a1.alignment != s1.alignment ||
+        a0.img_hash != s0.img_hash || a1.img_hash != s1.img_hash) {
+      tmp.fail("invalid-scope-changed-pool", std::string("a refused new_const(") + sv + ") changed the local or global pool of the Compiler");
+      return;
+    }
+    xhit("invalid_scope_refused");
+    xhit(std::string("invalid_scope_refused:") + (typed ? "typed-new_const" : "_new_const"));
+  }
+};
+
 static void emit_compiler_x86(Rng r) {
   path_hit("x86::Compiler");
+  Rng side(r.s ^ 0xC19FA0175EEDull);
+  bool arch32 = side.chance(1, 5);        // 32-bit target: section bytes only (absolute [label + offset] operands)
+  bool fault_case = side.chance(1, 2);
   JitRuntime rt;
   CodeHolder code;
-  if (code.init(rt.environment(), rt.cpu_features()) != Error::kOk) return;
+  if (arch32) { if (code.init(Environment(Arch::kX86)) != Error::kOk) return; path_hit("x86::Compiler:32-bit-target"); }
+  else if (code.init(rt.environment(), rt.cpu_features()) != Error::kOk) return;
   x86::Compiler cc(&code);
-  bool avx = rt.cpu_features().x86().has_avx();
-  bool avx512 = rt.cpu_features().x86().has_avx512_f();
+  bool avx = !arch32 && rt.cpu_features().x86().has_avx();
+  bool avx512 = !arch32 && rt.cpu_features().x86().has_avx512_f();
+  if (avx) g_stats.extra["host_has_avx"] = 1;
+  if (avx512) g_stats.extra["host_has_avx512"] = 1;
 
   unsigned nfuncs = unsigned(r.range(1, 3));
   Gen g(r.fork(7));
   g.setup(unsigned(r.below(6)));
   g.pattern.clear();
-  std::vector<std::unique_ptr<EmitPool>> pools;
-  EmitPool* global = nullptr;
+  CcCase<x86::Compiler, x86::Mem> C(cc, code, "x86", "emit:compiler-local:", "emit:compiler-global:", side.fork(3));
+  C.fault_case = fault_case;
+  if (fault_case) path_hit("x86::Compiler:with-refused-requests");
   std::vector<Label> func_labels;
   std::vector<std::vector<LoadRec>> loads(nfuncs);
   std::vector<size_t> out_size(nfuncs, 0);
+  unsigned probe_f = unsigned(side.below(nfuncs)), probe_i = unsigned(side.below(8));
 
   for (unsigned f = 0; f < nfuncs; f++) {
     FuncNode* fn = cc.add_func(FuncSignature::build<void, uint8_t*>());
@@ -989,57 +1229,33 @@ static void emit_compiler_x86(Rng r) {
     func_labels.push_back(fn->label());
     x86::Gp out = cc.new_gp_ptr("out");
     fn->set_arg(0, out);
-    x86::Gp t = cc.new_gp64("t");
-    EmitPool* local = nullptr;
-    unsigned nops = unsigned(r.range(1, 28));
-    for (unsigned i = 0; i < nops; i++) {
-      Item it = g.next(i);
-      unsigned scope = r.chance(1, 3) ? 1u : 0u;
-      EmitPool*& ep = scope ? global : local;
-      ConstPoolNode* before_node = cc._const_pools[scope];
-      Snap before = take_snap(before_node ? &before_node->const_pool() : nullptr, true);
-      const uint8_t* p = g_feed.put(it, r.chance(1, 4));
-      x86::Mem m;
-      Error err = cc._new_const(Out<BaseMem>(m), ConstPoolScope(scope), p, it.size);
-      g_feed.scribble();
-      ConstPoolNode* node = cc._const_pools[scope];
-      if (!node) return;
-      if (!ep) {
-        pools.emplace_back(new EmitPool());
-        ep = pools.back().get();
-        ep->s.reset(new Session(scope ? "emit:compiler-global:" : "emit:compiler-local:"));
-        ep->node = node;
-        ep->label_id = node->label_id();
-      }
-      if (ep->node != node) { ep->s->fail("pool-node-changed", "the ConstPoolNode of an open scope changed between two new_const calls"); continue; }
-      if (ep->s->failed) continue;
-      size_t off = size_t(0xDEADBEEFDEADull);
-      if (err == Error::kOk) {
-        if (!m.is_mem() || !m.has_base_label() || m.base_id() != node->label_id() || m.has_index() || m.offset() < 0 || m.size() != it.size) {
-          ep->s->log(it, m.offset(), '?');
-          ep->s->fail("mem-operand-wrong", "new_const returned a memory operand that is not [pool_label + offset] of the constant's size (base_id=" +
-                      std::to_string(m.base_id()) + " label=" + std::to_string(node->label_id()) + " offset=" + std::to_string(m.offset()) + " size=" + std::to_string(m.size()) + ")");
-          continue;
-        }
-        off = size_t(m.offset());
-      }
-      ep->s->record(it, err, off, before, &node->const_pool(), true);
-      if (ep->s->failed || err != Error::kOk) continue;
-      ep->s->verify_fill(node->const_pool(), false);
-      // load the constant through the returned operand and store it to out[pos]
+    x86::Gp t = arch32 ? cc.new_gp32("t") : cc.new_gp64("t");
+    C.cur[0] = nullptr;
+    C.creation_refused[0] = false;
+
+    // loads the constant through the returned operand and stores it to out[pos]
+    auto emit_load = [&](const Item& it, const x86::Mem& m) {
       LoadRec lr;
       lr.out_pos = out_size[f];
       lr.size = it.size;
       memcpy(lr.b, it.bytes.data(), it.size);
       size_t pos = out_size[f];
       bool vec = r.chance(1, 2);
-      if (it.size == 1) { cc.movzx(t.r32(), m); cc.mov(x86::byte_ptr(out, int32_t(pos)), t.r8()); }
-      else if (it.size == 2) { cc.movzx(t.r32(), m); cc.mov(x86::word_ptr(out, int32_t(pos)), t.r16()); }
-      else if (it.size == 4) { cc.mov(t.r32(), m); cc.mov(x86::dword_ptr(out, int32_t(pos)), t.r32()); }
-      else if (it.size == 8) { cc.mov(t, m); cc.mov(x86::qword_ptr(out, int32_t(pos)), t); }
-      else if (it.size == 16 && vec) { x86::Vec v = cc.new_xmm(); cc.movups(v, m); cc.movups(x86::xmmword_ptr(out, int32_t(pos)), v); }
-      else if (it.size == 32 && vec && avx) { x86::Vec v = cc.new_ymm(); cc.vmovups(v, m); cc.vmovups(x86::ymmword_ptr(out, int32_t(pos)), v); }
-      else if (it.size == 64 && vec && avx512) { x86::Vec v = cc.new_zmm(); cc.vmovups(v, m); cc.vmovups(x86::zmmword_ptr(out, int32_t(pos)), v); }
+      if (arch32) {
+        // no execution: the loads only make the operands part of real instructions
+        if (it.size <= 2) cc.movzx(t.r32(), m);
+        else if (it.size == 4) cc.mov(t.r32(), m);
+        else if (it.size == 16 && vec) { x86::Vec v = cc.new_xmm(); cc.movups(v, m); }
+        else for (size_t k = 0; k < it.size; k += 4) { x86::Mem mk = m.clone_adjusted(int64_t(k)); mk.set_size(4); cc.mov(t.r32(), mk); }
+        path_hit("load:32-bit-target");
+      }
+      else if (it.size == 1) { cc.movzx(t.r32(), m); cc.mov(x86::byte_ptr(out, int32_t(pos)), t.r8()); path_hit("load:gp"); }
+      else if (it.size == 2) { cc.movzx(t.r32(), m); cc.mov(x86::word_ptr(out, int32_t(pos)), t.r16()); path_hit("load:gp"); }
+      else if (it.size == 4) { cc.mov(t.r32(), m); cc.mov(x86::dword_ptr(out, int32_t(pos)), t.r32()); path_hit("load:gp"); }
+      else if (it.size == 8) { cc.mov(t, m); cc.mov(x86::qword_ptr(out, int32_t(pos)), t); path_hit("load:gp"); }
+      else if (it.size == 16 && vec) { x86::Vec v = cc.new_xmm(); cc.movups(v, m); cc.movups(x86::xmmword_ptr(out, int32_t(pos)), v); path_hit("load:xmm"); }
+      else if (it.size == 32 && vec && avx) { x86::Vec v = cc.new_ymm(); cc.vmovups(v, m); cc.vmovups(x86::ymmword_ptr(out, int32_t(pos)), v); path_hit("load:ymm"); }
+      else if (it.size == 64 && vec && avx512) { x86::Vec v = cc.new_zmm(); cc.vmovups(v, m); cc.vmovups(x86::zmmword_ptr(out, int32_t(pos)), v); path_hit("load:zmm"); }
       else {
         for (size_t k = 0; k < it.size; k += 8) {
           x86::Mem mk = m.clone_adjusted(int64_t(k));
@@ -1047,29 +1263,61 @@ static void emit_compiler_x86(Rng r) {
           cc.mov(t, mk);
           cc.mov(x86::qword_ptr(out, int32_t(pos + k)), t);
         }
+        path_hit("load:gp-chunks");
       }
       out_size[f] += it.size;
       loads[f].push_back(lr);
+    };
+
+    unsigned nops = unsigned(r.range(1, 28));
+    for (unsigned i = 0; i < nops && !C.aborted; i++) {
+      Item it = g.next(i);
+      unsigned scope = r.chance(1, 3) ? 1u : 0u;
+      bool odd = r.chance(1, 4);
+      if (f == probe_f && i == probe_i % nops) C.invalid_scope_probe();
+      uint64_t fk; bool sticky; unsigned wrapper;
+      C.pick(it, scope, fk, sticky, wrapper);
+      x86::Mem m;
+      bool ok = C.op(it, scope, fk, sticky, wrapper, odd, m);
+      if (!ok && fk && valid_size(it.size) && !C.aborted && C.fr.chance(2, 3)) {
+        // the caller asks again
+        ok = C.op(it, scope, 0, false, 0, false, m);
+        xhit("newconst_asked_again_at_once");
+      }
+      if (ok) emit_load(it, m);
+    }
+    if (C.aborted) return;
+    // everything refused inside add() and still owed is requested again before the scope closes
+    for (unsigned scope = 0; scope < 2; scope++) {
+      if (scope == 1 && f + 1 != nfuncs) continue;
+      for (auto& it : C.pending_of(scope)) {
+        x86::Mem m;
+        if (C.op(it, scope, 0, false, 0, false, m)) { emit_load(it, m); xhit("newconst_asked_again_before_scope_end"); }
+      }
     }
     cc.ret();
     cc.end_func();
   }
+  for (auto& ep : C.pools) if (ep->s->failed) return;   // reported already; what follows would be the same fault seen again
   Error ferr = cc.finalize();
   if (ferr != Error::kOk) {
     Session tmp("emit:compiler:");
-    if (!pools.empty()) tmp.hist = pools[0]->s->hist;
-    tmp.fail("finalize-failed", "x86::Compiler::finalize() failed with error " + std::to_string(unsigned(ferr)) + " for a function that only loads pool constants");
+    if (!C.pools.empty()) tmp.hist = C.pools[0]->s->hist;
+    tmp.fail(std::string("finalize-failed") + (C.left_unregistered ? ":after-refused-pool-creation" : arch32 ? ":32-bit-target" : ""), "x86::Compiler::finalize() failed with error " + std::to_string(unsigned(ferr)) + " for a function that only loads pool constants" +
+             (C.left_unregistered ? " [an earlier _new_const returned an error after an arena request made while the pool node was created/registered failed; the scope kept a ConstPoolNode whose label is not registered and the Compiler added it to the code]" : ""));
     return;
   }
   bool any_failed = false;
-  for (auto& ep : pools) {
+  for (auto& ep : C.pools) {
     const ConstPool& cp = ep->node->const_pool();
     check_section(*ep->s, code, ep->label_id, cp.size(), cp.alignment(), "x86::Compiler section bytes at pool label");
     any_failed |= ep->s->failed;
+    if (!ep->s->failed && ep->s->had_refusal) xhit("compiler_pools_with_refused_add_checked_in_section");
     finish_sequence(*ep->s, size_t(ep->s->n_adds));
   }
 #if V_CAN_EXEC
-  if (!any_failed) {
+  if (!any_failed && !arch32) {
+    g_stats.extra["host_can_execute"] = 1;
     uint8_t* base = nullptr;
     if (rt.add(&base, &code) == Error::kOk && base) {
       for (unsigned f = 0; f < nfuncs; f++) {
@@ -1078,6 +1326,7 @@ static void emit_compiler_x86(Rng r) {
         std::vector<uint8_t> out(out_size[f] + 64, 0xA7);
         fnp(out.data());
         g_stats.emit_exec++;
+        if (fault_case) xhit("jit_functions_executed_in_cases_with_refused_requests");
         for (auto& lr : loads[f]) {
           if (memcmp(out.data() + lr.out_pos, lr.b, lr.size) != 0) {
             Session tmp("emit:compiler:");
@@ -1093,12 +1342,15 @@ static void emit_compiler_x86(Rng r) {
       }
       rt.release(base);
     }
+    else xhit("jit_runtime_add_failed");
   }
 #endif
 }
 
 static void emit_compiler_a64(Rng r) {
   path_hit("a64::Compiler");
+  Rng side(r.s ^ 0xC19FA0175EEDull);
+  bool fault_case = side.chance(1, 2);
   Environment env(Arch::kAArch64);
   CodeHolder code;
   if (code.init(env) != Error::kOk) return;
@@ -1106,56 +1358,55 @@ static void emit_compiler_a64(Rng r) {
   Gen g(r.fork(9));
   g.setup(unsigned(r.below(6)));
   g.pattern.clear();
-  std::vector<std::unique_ptr<EmitPool>> pools;
-  EmitPool* global = nullptr;
+  CcCase<a64::Compiler, a64::Mem> C(cc, code, "a64", "emit:a64-compiler-local:", "emit:a64-compiler-global:", side.fork(3));
+  C.fault_case = fault_case;
+  if (fault_case) path_hit("a64::Compiler:with-refused-requests");
   unsigned nfuncs = unsigned(r.range(1, 2));
+  unsigned probe_f = unsigned(side.below(nfuncs)), probe_i = unsigned(side.below(8));
   for (unsigned f = 0; f < nfuncs; f++) {
     FuncNode* fn = cc.add_func(FuncSignature::build<void>());
     if (!fn) return;
-    EmitPool* local = nullptr;
+    C.cur[0] = nullptr;
+    C.creation_refused[0] = false;
     unsigned nops = unsigned(r.range(1, 40));
-    for (unsigned i = 0; i < nops; i++) {
+    for (unsigned i = 0; i < nops && !C.aborted; i++) {
       Item it = g.next(i);
       unsigned scope = r.chance(1, 3) ? 1u : 0u;
-      EmitPool*& ep = scope ? global : local;
-      ConstPoolNode* before_node = cc._const_pools[scope];
-      Snap before = take_snap(before_node ? &before_node->const_pool() : nullptr, true);
-      const uint8_t* p = g_feed.put(it, r.chance(1, 4));
+      bool odd = r.chance(1, 4);
+      if (f == probe_f && i == probe_i % nops) C.invalid_scope_probe();
+      uint64_t fk; bool sticky; unsigned wrapper;
+      C.pick(it, scope, fk, sticky, wrapper);
       a64::Mem m;
-      Error err = cc._new_const(Out<BaseMem>(m), ConstPoolScope(scope), p, it.size);
-      g_feed.scribble();
-      ConstPoolNode* node = cc._const_pools[scope];
-      if (!node) return;
-      if (!ep) {
-        pools.emplace_back(new EmitPool());
-        ep = pools.back().get();
-        ep->s.reset(new Session(scope ? "emit:a64-compiler-global:" : "emit:a64-compiler-local:"));
-        ep->node = node;
-        ep->label_id = node->label_id();
+      bool ok = C.op(it, scope, fk, sticky, wrapper, odd, m);
+      if (!ok && fk && valid_size(it.size) && !C.aborted && C.fr.chance(2, 3)) {
+        C.op(it, scope, 0, false, 0, false, m);
+        xhit("newconst_asked_again_at_once");
       }
-      if (ep->s->failed) continue;
-      size_t off = size_t(0xDEADBEEFDEADull);
-      if (err == Error::kOk) {
-        if (!m.is_mem() || !m.has_base_label() || m.base_id() != node->label_id() || m.offset() < 0) {
-          ep->s->fail("mem-operand-wrong", "new_const returned a memory operand that is not [pool_label + offset]");
-          continue;
-        }
-        off = size_t(m.offset());
+    }
+    if (C.aborted) return;
+    for (unsigned scope = 0; scope < 2; scope++) {
+      if (scope == 1 && f + 1 != nfuncs) continue;
+      for (auto& it : C.pending_of(scope)) {
+        a64::Mem m;
+        if (C.op(it, scope, 0, false, 0, false, m)) xhit("newconst_asked_again_before_scope_end");
       }
-      ep->s->record(it, err, off, before, &node->const_pool(), true);
     }
     cc.ret();
     cc.end_func();
   }
+  for (auto& ep : C.pools) if (ep->s->failed) return;
   Error ferr = cc.finalize();
   if (ferr != Error::kOk) {
-    Session tmp("emit:a64-compiler:");
-    tmp.fail("finalize-failed", "a64::Compiler::finalize() failed with error " + std::to_string(unsigned(ferr)));
+    Session tmp(C.left_unregistered ? "emit:compiler:" : "emit:a64-compiler:");
+    if (!C.pools.empty()) tmp.hist = C.pools[0]->s->hist;
+    tmp.fail(std::string("finalize-failed") + (C.left_unregistered ? ":after-refused-pool-creation" : ""), "a64::Compiler::finalize() failed with error " + std::to_string(unsigned(ferr)) +
+             (C.left_unregistered ? " [an earlier _new_const returned an error after an arena request made while the pool node was created/registered failed; the scope kept a ConstPoolNode whose label is not registered and the Compiler added it to the code]" : ""));
     return;
   }
-  for (auto& ep : pools) {
+  for (auto& ep : C.pools) {
     const ConstPool& cp = ep->node->const_pool();
     check_section(*ep->s, code, ep->label_id, cp.size(), cp.alignment(), "a64::Compiler section bytes at pool label");
+    if (!ep->s->failed && ep->s->had_refusal) xhit("compiler_pools_with_refused_add_checked_in_section");
     finish_sequence(*ep->s, size_t(ep->s->n_adds));
   }
 }
@@ -1181,8 +1432,19 @@ static void emit_embed(Rng r, bool use_builder) {
   Gen g(r.fork(11));
   g.setup(unsigned(r.below(6)));
   g.pattern.clear();
+  // side stream: pools much larger than the CodeBuffer's first allocation (ensure_space(size) has to grow by the pool's
+  // size, a large EmbedDataNode payload), pools embedded into a second section with its own alignment
+  Rng side(r.s ^ 0xC19E3BED5EEDull);
+  bool big = side.chance(1, 20);
+  Section* second = nullptr;
+  unsigned second_from = 0;
+  if (side.chance(1, 4)) {
+    static const uint32_t aligns[] = {1, 8, 64, 64};
+    if (code.new_section(Out(second), ".data", SIZE_MAX, SectionFlags::kNone, aligns[side.below(4)]) != Error::kOk) return;
+    second_from = unsigned(side.below(2));   // from the first or from the second embedding on
+  }
 
-  struct Emb { uint32_t label_id; std::vector<uint8_t> img, known; size_t size, alignment, max_end, max_size; size_t nentries; };
+  struct Emb { uint32_t label_id; std::vector<uint8_t> img, known; size_t size, alignment, max_end, max_size; size_t nentries; bool in_second; };
   std::vector<Emb> embs;
   unsigned rounds = unsigned(r.range(1, 3));
   for (unsigned rd = 0; rd < rounds && !s.failed; rd++) {
@@ -1195,7 +1457,18 @@ static void emit_embed(Rng r, bool use_builder) {
       s.add_direct(pool, g.next(i), true, r.chance(1, 4));
       if (!s.failed && r.chance(1, 4)) s.verify_fill(pool, false);
     }
+    if (big && rd == 0 && !s.failed) {
+      static const size_t bsz[] = {64, 64, 64, 64, 32, 16, 8, 1};
+      unsigned n = unsigned(side.range(1200, 4000));
+      for (unsigned i = 0; i < n && !s.failed; i++) {
+        s.add_direct(pool, g.fresh(bsz[side.below(8)]), false, false);
+        if (!s.failed && side.chance(1, 400)) s.verify_fill(pool, false);
+      }
+    }
     if (s.failed) break;
+    if (second && rd == second_from) {
+      if (em->section(second) != Error::kOk) { s.fail("section-switch-failed", "harness: section() failed"); break; }
+    }
     Label L = em->new_label();
     Error err = em->embed_const_pool(L, pool);
     if (err != Error::kOk) {
@@ -1208,6 +1481,7 @@ static void emit_embed(Rng r, bool use_builder) {
     e.img = s.img; e.known = s.known;
     e.size = pool.size(); e.alignment = pool.alignment();
     e.max_end = s.max_end; e.max_size = s.max_size; e.nentries = s.entries.size();
+    e.in_second = second && rd >= second_from;
     embs.push_back(std::move(e));
   }
   if (!s.failed && use_builder) {
@@ -1225,6 +1499,14 @@ static void emit_embed(Rng r, bool use_builder) {
     snap.entries.assign(s.entries.begin(), s.entries.begin() + e.nentries);
     check_section(snap, code, e.label_id, e.size, e.alignment, use_builder ? "x86::Builder embed_const_pool bytes" : "x86::Assembler embed_const_pool bytes");
     if (snap.failed) s.failed = true;
+    else {
+      if (e.size > 8096) xhit("emitter_pools_larger_than_first_code_buffer_checked");
+      if (e.in_second) {
+        xhit("emitter_pools_in_a_second_section_checked");
+        if (code.label_entry_of(e.label_id).section_id() == 0) s.fail("pool-in-wrong-section", "embed_const_pool() after section(.data) bound the pool label in .text");
+      }
+      g_stats.extra["max:largest_embedded_pool_bytes"] = std::max<uint64_t>(g_stats.extra["max:largest_embedded_pool_bytes"], e.size);
+    }
   }
   finish_sequence(s, size_t(s.n_adds));
 }
@@ -1251,14 +1533,74 @@ static void run_emit(const Args& args) {
 
 // embed_const_pool() of a user-owned pool through one of four emitters behind `junk` bytes: the label must be bound
 // at an offset aligned to the largest constant handed out and the section bytes must be the pool.
-static void embed_check(Session& s, const ConstPool& pool, unsigned which, unsigned junk) {
+// A pool that reports size() > 0 but min_item_size() == 0 (an add() was refused after it had reserved the constant's room and
+// nothing was added since) written out with a logger attached: done in a child process, because a sanitizer report there
+// would end this process and with it everything else the shard has to observe.
+static unsigned g_child_probes = 0;
+static void logged_embed_in_child(Session& s, const ConstPool& pool, unsigned which) {
+  static const char* names[4] = {"x86::Assembler", "x86::Builder", "a64::Assembler", "a64::Builder"};
+  int fds[2];
+  if (pipe(fds) != 0) return;
+  fflush(stdout);
+  fflush(stderr);
+  pid_t pid = fork();
+  if (pid < 0) { close(fds[0]); close(fds[1]); return; }
+  if (pid == 0) {
+    close(fds[0]);
+    dup2(fds[1], 2);
+    Environment env(which < 2 ? Arch::kX64 : Arch::kAArch64);
+    CodeHolder code;
+    if (code.init(env) != Error::kOk) _exit(0);
+    StringLogger logger;
+    code.set_logger(&logger);
+    std::unique_ptr<BaseEmitter> em;
+    if (which == 0) em.reset(new x86::Assembler());
+    else if (which == 1) em.reset(new x86::Builder());
+    else if (which == 2) em.reset(new a64::Assembler());
+    else em.reset(new a64::Builder());
+    if (code.attach(em.get()) != Error::kOk) _exit(0);
+    Label L = em->new_label();
+    if (em->embed_const_pool(L, pool) == Error::kOk && (which & 1)) (void)em->finalize();
+    _exit(0);
+  }
+  close(fds[1]);
+  std::string text;
+  char buf[1024];
+  ssize_t n;
+  while ((n = read(fds[0], buf, sizeof buf)) > 0) if (text.size() < 16384) text.append(buf, size_t(n));
+  close(fds[0]);
+  int st = 0;
+  if (waitpid(pid, &st, 0) != pid) return;
+  xhit("logged_embeds_of_pools_with_size_but_min_item_size_0_(child_process)");
+  if (WIFEXITED(st) && WEXITSTATUS(st) == 0) return;
+  std::string line;
+  size_t at = text.find("runtime error:");
+  if (at == std::string::npos) at = text.find("ERROR:");
+  if (at != std::string::npos) line = text.substr(at, text.find('\n', at) - at);
+  std::string saved = s.ctx;
+  s.ctx = "embed:";
+  s.fail("logged-embed-of-pool-with-size-but-min_item_size-0-dies", std::string(names[which]) + " with a logger attached: embed_const_pool()" + ((which & 1) ? " + finalize()" : "") +
+         " of a pool with size() = " + std::to_string(pool.size()) + ", min_item_size() = 0 ended the process (" + (WIFSIGNALED(st) ? "signal " + std::to_string(WTERMSIG(st)) : "exit status " + std::to_string(WEXITSTATUS(st))) +
+         "): " + (line.empty() ? std::string("no sanitizer line captured") : line));
+  s.ctx = saved;
+}
+
+static void embed_check(Session& s, const ConstPool& pool, unsigned which, unsigned junk, uint64_t fault_k = 0, bool with_logger = false) {
   if (s.failed || pool.size() == 0) return;
+  if (with_logger && pool.min_item_size() == 0) {
+    if (g_child_probes < 4) { g_child_probes++; logged_embed_in_child(s, pool, which & 3); }
+    if (s.failed) return;
+    with_logger = false;
+    xhit("embeds_without_logger_because_min_item_size_0");
+  }
   static const char* names[4] = {"x86::Assembler", "x86::Builder", "a64::Assembler", "a64::Builder"};
   static const char* ctxs[4] = {"embed:x86-assembler:", "embed:x86-builder:", "embed:a64-assembler:", "embed:a64-builder:"};
   which &= 3;
   Environment env(which < 2 ? ((junk & 1) ? Arch::kX64 : Arch::kX86) : Arch::kAArch64);
   CodeHolder code;
   if (code.init(env) != Error::kOk) return;
+  StringLogger logger;
+  if (with_logger) code.set_logger(&logger);
   std::unique_ptr<BaseEmitter> em;
   if (which == 0) em.reset(new x86::Assembler());
   else if (which == 1) em.reset(new x86::Builder());
@@ -1272,8 +1614,26 @@ static void embed_check(Session& s, const ConstPool& pool, unsigned which, unsig
   std::string saved = s.ctx;
   s.ctx = ctxs[which];
   Label L = em->new_label();
+  // fault_k: the fault_k-th arena request made inside embed_const_pool() fails (the Builder's align / data nodes). A
+  // refused write-out owes nothing; the caller then embeds the pool again under a new label, which is held to the statement.
+  F.begin(fault_k, false, "inside-embed_const_pool");
   Error err = em->embed_const_pool(L, pool);
-  if (err != Error::kOk) s.fail("embed-failed", std::string(names[which]) + "::embed_const_pool() failed with error " + std::to_string(unsigned(err)));
+  F.end();
+  if (fault_k) {
+    xhit("embed_faults_armed");
+    g_stats.extra["max:most_arena_requests_seen_in_one_embed_const_pool"] = std::max<uint64_t>(g_stats.extra["max:most_arena_requests_seen_in_one_embed_const_pool"], F.requests);
+  }
+  if (F.fired) {
+    if (err != Error::kOk) {
+      xhit(std::string("embed_refused:") + names[which] + (F.fired_index == 1 ? ":first-request" : ":later-request"));
+      L = em->new_label();
+      err = em->embed_const_pool(L, pool);
+      if (err == Error::kOk) xhit("embed_again_after_refused_embed");
+      if (err != Error::kOk && !s.failed) { s.fail("embed-failed:after-refused-embed", std::string(names[which]) + "::embed_const_pool() under a new label failed with error " + std::to_string(unsigned(err)) + " after an embed_const_pool() in which an arena request was refused"); }
+    }
+    else xhit(std::string("embed_fault_not_reported:") + names[which]);
+  }
+  if (err != Error::kOk && !s.failed) s.fail("embed-failed", std::string(names[which]) + "::embed_const_pool() failed with error " + std::to_string(unsigned(err)));
   if (!s.failed && (which & 1)) {
     Error ferr = em->finalize();
     if (ferr != Error::kOk) s.fail("finalize-failed", std::string(names[which]) + "::finalize() failed with error " + std::to_string(unsigned(ferr)));
@@ -1284,6 +1644,7 @@ static void embed_check(Session& s, const ConstPool& pool, unsigned which, unsig
     if (!s.failed) {
       g_stats.fault_embed_paths[names[which]]++;
       if (s.had_refusal) g_stats.embeds_after_refusal++;
+      if (with_logger) { xhit(logger.data_size() ? "embeds_with_logger_that_logged" : "embeds_with_logger_that_logged_nothing"); if (s.had_refusal) xhit("embeds_with_logger_after_a_refusal"); }
     }
   }
   s.ctx = saved;
@@ -1352,7 +1713,7 @@ static void fault_epilogue(Session& s, PoolHolder& ph, uint64_t salt, bool retry
     }
   }
   if (!s.failed) s.verify_fill(pool, true);
-  if (!s.failed) embed_check(s, pool, unsigned(salt), unsigned(salt >> 2) * 7 + 1);
+  if (!s.failed) embed_check(s, pool, unsigned(salt), unsigned(salt >> 2) * 7 + 1, (salt >> 7) % 3 == 0 ? 1 + (salt >> 9) % 3 : 0, ((salt >> 5) & 1) != 0);
   g_stats.max_pool_size = std::max<uint64_t>(g_stats.max_pool_size, pool.size());
 }
 
@@ -1390,6 +1751,12 @@ static bool run_fault_history(PoolHolder& ph, const std::vector<Item>& A, const 
     fired = g_stats.fault_fired != fired0;
     if (!s->failed) s->verify_fill(pool, false);
     if (err == Error::kOk || !valid_size(it.size) || s->failed) continue;
+    if (n % 4 == 0) {
+      // the pool is written out as the refused call left it (possibly size() > 0 with nothing handed out yet), logger attached
+      embed_check(*s, pool, unsigned(n >> 2), unsigned(n >> 4) * 7 + 1, 0, true);
+      if (pool.size() && !s->failed) xhit("embeds_right_after_a_refused_add");
+      if (s->failed) continue;
+    }
     if (variant == 1) {
       for (auto& part : parts_of(it)) {
         if (s->failed) break;
@@ -1487,6 +1854,11 @@ static void run_frandom(const Args& args) {
         }
         continue;
       }
+      if (r.chance(1, 6)) {
+        embed_check(*s, pool, unsigned(r.below(4)), unsigned(r.below(96)), 0, true);
+        if (pool.size() && !s->failed) xhit("embeds_right_after_a_refused_add");
+        if (s->failed) continue;
+      }
       unsigned what = unsigned(r.below(10));
       if (what < 2) {
         for (auto& part : parts_of(it)) {
@@ -1573,6 +1945,8 @@ int main(int argc, char** argv) {
   { bool first = true; for (auto& kv : g_stats.refused_by_pos) { if (!first) o += ","; first = false; o += jstr(kv.first) + ":" + std::to_string(kv.second); } }
   o += "},\"fault_embed_paths\":{";
   { bool first = true; for (auto& kv : g_stats.fault_embed_paths) { if (!first) o += ","; first = false; o += jstr(kv.first) + ":" + std::to_string(kv.second); } }
+  o += "},\"extra\":{";
+  { bool first = true; for (auto& kv : g_stats.extra) { if (!first) o += ","; first = false; o += jstr(kv.first) + ":" + std::to_string(kv.second); } }
   o += "}";
   o += ",\"by_size\":[";
   for (int i = 0; i < 7; i++) { if (i) o += ","; o += std::to_string(g_stats.by_size[i]); }
